@@ -3,7 +3,7 @@
 (*   stream|from().groupBy('g')|window().period(P).every(E)[.align()][.fillPeriod()]|log().prefix('w') *)
 (* did for ONE group (the driver c03 demultiplexes the sink by group; the   *)
 (* groups of a task are interleaved on the real node).  Lines:              *)
-(*   Reset {period, every, align, fill, sink}   sink = the batches the log  *)
+(*   Reset {period, every, use_align, fill, sink}  sink = batches the log   *)
 (*          sink saw for this group, in order: [{tmax, pts: [[t,seq],..]}]  *)
 (*   Point {t, seq}     the group received this point                       *)
 (*   End                the task was stopped (StopTask drains; the window   *)
@@ -49,7 +49,7 @@ IsEv(e) == l <= Len(Trace) /\ Ln.ev = e /\ l' = l + 1
 
 TrReset ==
     /\ IsEv("Reset")
-    /\ cfg' = [period |-> Ln.period, every |-> Ln.every, align |-> Ln.align, fill |-> Ln.fill]
+    /\ cfg' = [period |-> Ln.period, every |-> Ln.every, align |-> Ln.use_align, fill |-> Ln.fill]
     /\ st' = [g \in Groups |-> Group0]
     /\ recv' = [g \in Groups |-> <<>>]
     /\ out' = [g \in Groups |-> <<>>]
@@ -76,7 +76,8 @@ TrPoint ==
 
 TrEnd ==
     /\ IsEv("End")
-    /\ obs = <<>>
+    /\ Ln.failed = FALSE      \* no node of the task died
+    /\ obs = <<>>            \* the sink saw nothing the window should not have emitted
     /\ UNCHANGED <<cfg, st, recv, out, n, ring, hit, remit, obs>>
 
 TrNext == TrReset \/ TrPoint \/ TrEnd
